@@ -329,9 +329,13 @@ def run_case(case, stats):
                 stats.key(w, cfg["endian"], cfg["compiled"], f["t"], f["depth"], sl["cls"], tuple(hist[-2:]))
             if k == "deref":
                 got, v = check_deref(p, f, f["depth"], a, f"{sl['f']}[{sl['j']}]")
-                got2, _ = check_deref(p, f, f["depth"], a, f"{sl['f']}[{sl['j']}] (second access)")
+                got2, v2 = check_deref(p, f, f["depth"], a, f"{sl['f']}[{sl['j']}] (second access)")
                 if got2 != got:
                     raise Violation("dereference", "not_stable_on_repeated_access", f"{got} then {got2}")
+                if got[0] != "exc" and f["t"] in ("T", "N") and f["depth"] == 1 and v2 is not v:
+                    # a structure target is a mutable object: repeated access must hand out the object of the first
+                    # access, otherwise changes made through the pointer are lost
+                    raise Violation("dereference", "not_stable_on_repeated_access", f"{sl['f']}[{sl['j']}]: second access returned another {f['t']} object ({got})")
             elif k == "deref2":
                 got, v = check_deref(p, f, f["depth"], a, f"{sl['f']}[{sl['j']}]")
                 if f["depth"] == 2 and got[0] == "ptr":
